@@ -61,8 +61,33 @@ let keq (a : key) (b : key) : bool = kid arrhash a b
 let dstr k = match Hashtbl.find_opt udstr (show_key k) with Some s -> s | None -> "?" ^ show_key k
 let djson k = match Hashtbl.find_opt udjson (show_key k) with Some s -> s | None -> "?" ^ show_key k
 
+(* values: integers, or the special values N nil, F false, E "", L [] (codes below -1000000 in the
+   model, where a value is an opaque Z); their spelling inside str/json comes with the header *)
+let vstr : (string, string) Hashtbl.t = Hashtbl.create 8
+let vjson : (string, string) Hashtbl.t = Hashtbl.create 8
+let specials = ["N"; "F"; "E"; "L"]
+let z_of_value (s : string) : z =
+  match s with
+  | "N" -> z_of_int (-1000001) | "F" -> z_of_int (-1000002) | "E" -> z_of_int (-1000003) | "L" -> z_of_int (-1000004)
+  | _ -> z_of_string s
+let show_value (v : z) : string =
+  let s = string_of_z v in
+  match s with
+  | "-1000001" -> "N" | "-1000002" -> "F" | "-1000003" -> "E" | "-1000004" -> "L"
+  | _ -> s
+let value_in tbl (v : z) : string =
+  let s = show_value v in
+  if List.mem s specials then (match Hashtbl.find_opt tbl s with Some t -> t | None -> "?" ^ s) else s
+
 let header (toks : string list) : string =
   Hashtbl.reset ucodes; Hashtbl.reset udstr; Hashtbl.reset udjson;
+  let vtoks, toks = List.partition (fun t -> t.[0] = '=') toks in
+  List.iter (fun t ->
+    match String.split_on_char '@' t with
+    | [name; _; d1; d2] ->
+      let n = String.sub name 1 (String.length name - 1) in
+      Hashtbl.replace vstr n (hex_decode d1); Hashtbl.replace vjson n (hex_decode d2)
+    | _ -> failwith ("bad value token " ^ t)) vtoks;
   let ks = List.map (fun t ->
     match String.split_on_char '@' t with
     | [shape; code; d1; d2] ->
@@ -78,16 +103,16 @@ let header (toks : string list) : string =
   "eq=" ^ eqm ^ ";acode=" ^ ac
 
 let show_oz = function Ok z -> string_of_z z | Err -> "!" | Crash -> "#"
-let show_optv dflt = function Some v -> string_of_z v | None -> dflt
-let show_kv (k, v) = "(" ^ show_key k ^ ":" ^ string_of_z v ^ ")"
+let show_optv dflt = function Some v -> show_value v | None -> dflt
+let show_kv (k, v) = "(" ^ show_key k ^ ":" ^ show_value v ^ ")"
 let show_okv = function Ok kv -> show_kv kv | Err -> "!" | Crash -> "#"
 let show_ok = function Ok k -> show_key k | Err -> "!" | Crash -> "#"
 let show_olist = function
-  | Ok l -> String.concat "|" (List.map (fun (k, v) -> show_key k ^ "=" ^ string_of_z v) l)
+  | Ok l -> String.concat "|" (List.map (fun (k, v) -> show_key k ^ "=" ^ show_value v) l)
   | Err -> "!" | Crash -> "#"
 
 let render_str (es, cut) =
-  let s = "{" ^ String.concat "" (List.map (fun (k, v) -> dstr k ^ ":" ^ string_of_z v ^ " ") es) in
+  let s = "{" ^ String.concat "" (List.map (fun (k, v) -> dstr k ^ ":" ^ value_in vstr v ^ " ") es) in
   let s = if cut then String.sub s 0 (String.length s - 1) else s in
   s ^ "}"
 
@@ -95,7 +120,7 @@ let render_json = function
   | Crash -> "#" | Err -> "!"
   | Ok (es, ko) ->
     if ko = [] then "{\"Atype\":\"hash\"}" else begin
-      let s = "{\"Atype\":\"hash\", " ^ String.concat "" (List.map (fun (k, v) -> djson k ^ ":" ^ string_of_z v ^ ", ") es) in
+      let s = "{\"Atype\":\"hash\", " ^ String.concat "" (List.map (fun (k, v) -> djson k ^ ":" ^ value_in vjson v ^ ", ") es) in
       let s = s ^ "\"zKeyOrder\":[" ^ String.concat "" (List.map (fun k -> djson k ^ ", ") ko) in
       String.sub s 0 (String.length s - 2) ^ "]}"
     end
@@ -105,7 +130,7 @@ let parse_op (s : string) : (key, z) op =
   match s.[0] with
   | 's' ->
     (match String.split_on_char '=' (String.sub s 1 (String.length s - 1)) with
-     | [i; v] -> OSet ((!ukeys).(idx_of i), z_of_string v)
+     | [i; v] -> OSet ((!ukeys).(idx_of i), z_of_value v)
      | _ -> failwith ("bad op " ^ s))
   | 'd' -> ODel ((!ukeys).(idx_of (String.sub s 1 (String.length s - 1))))
   | _ -> failwith ("bad op " ^ s)
